@@ -18,6 +18,8 @@ import gen as G
 
 THEOREMS = ['type_of_form_of', 'depth_queries_agree', 'minmax_is_value_depth', 'form_json_roundtrip',
             'type_print_parse_roundtrip', 'to_list_typed', 'getitem_range_preserves_type']
+DRIVERS = ('typedrv',)
+NEEDS_SAN = True
 COQ_DIR = os.path.join(C.VERIF, 'c17', 'coq')
 COQ_LOGICAL = '-R %s/coq AwkV -R . AwkTypes' % C.VERIF
 B17 = os.path.join(C.BUILD, 'c17')
@@ -562,8 +564,11 @@ def replay_cases(path, prefix=''):
         ts, body = rest[:k + 1], rest[k + 1:].strip()
         n += 1
         if op == 'describe':
+            extra = []
+            if body.endswith(' novalid'):
+                body, extra = body[:-len(' novalid')].rstrip(), ['novalid']
             kind = 'ext' if ('(parx ' in body or '(ident ' in body or '(recb ' in body) else 'core'
-            cases_.append(C.Case(prefix + cid, op, [ts], [body], dict(nontrivial=True, tags=dict(stream='replay'), kind=kind)))
+            cases_.append(C.Case(prefix + cid, op, [ts], [body] + extra, dict(nontrivial=True, tags=dict(stream='replay'), kind=kind)))
         else:
             cases_.append(C.Case(prefix + cid, op, [ts, body], [], dict(nontrivial=True, tags=dict(stream='replay'), kind='form',
                                                                        text=unb(sx_parse(body)).decode('utf-8', 'replace'))))
@@ -663,32 +668,35 @@ def form_signature(text):
     return None
 
 
-def lark_signature(s, res):
-    """signature of a type string the repository's parser does not bring back"""
-    t = s.decode('utf-8', 'replace')
-    if re.search(r'\(\)|\{\}|\[\]', t):
-        return 'lark-empty-record-or-union'
-    if re.search(r'\\', t):
-        return 'lark-string-escapes-not-decoded'
-    if re.search(r'(float16|float128|complex64|complex128|complex256|datetime64|timedelta64)', t):
-        return 'lark-dtype-not-in-grammar'
-    named = re.findall(r'([A-Za-z_][A-Za-z0-9_]*)\[', t)
-    named = [w for w in named if w not in ('option', 'union', 'struct', 'tuple', 'categorical', 'unknown') and not re.match(
-        r'^(u?int\d+|float\d+|bool|complex\d+|datetime64|timedelta64)$', w)]
-    if any(re.search(r'[0-9_]', w) for w in named):
-        return 'lark-record-name-charset'
-    if re.search(r'[A-Za-z_][A-Za-z0-9_]*\[(?!")', t) and any(
-            re.search(re.escape(w) + r'\[(?!")', t) for w in named):
-        return 'lark-named-tuple'
-    needs_hl = bool(re.search(r'option\[(?!.*parameters=)', t)) or bool(named) or 'categorical[' in t
-    has_regular = bool(re.search(r'(^|[^A-Za-z0-9_"])\d+ \* ', t))
-    if needs_hl and has_regular:
+def lark_signature(s, res, feats):
+    """which of the known limitations of the repository's parser explains that the printed type string s does not
+    come back (feats: features of the type computed by the model's runner from the type itself); None = none does"""
+    feats = set(feats)
+    if 'custom-typestr' in feats:
+        return 'skip'                 # a user-defined typestr cannot be known to from_datashape
+    if 'empty' in feats:
+        return 'lark-empty-record-or-union'            # (), {}, Name[], union[], struct[[], [], ...]
+    if 'named-tuple' in feats:
+        return 'lark-named-tuple'                      # Name[T, U]
+    if 'name-charset' in feats:
+        return 'lark-record-name-charset'              # Vec3[...], P_1[...]
+    if b'\\' in s:
+        return 'lark-string-escapes-not-decoded'       # "a\"b" is read as a\"b (s[1:-1])
+    if 'dtype' in feats:
+        return 'lark-dtype-not-in-grammar'             # float16, float128, complex*, datetime64, timedelta64
+    if 'needs-hl' in feats and 'regular' in feats:
         return 'lark-highlevel-turns-regular-into-arraytype'
-    if needs_hl and res['ll'].get('exc') == 'AssertionError' and res['hl'].get('ok') and res['hl'].get('same'):
-        return None       # fine in high-level mode
-    if 'parameters=' in t:
+    if 'reserved-name' in feats:
+        return 'lark-other'                            # record named union / struct / tuple / unknown / byte / ...
+    if 'typestr-hides' in feats:
+        # "string" / "bytes" / "char" / "byte" printed for a node that is not the string / char type the words stand for
+        # (the __array__ parameter sits on another node class): the printer is not injective
+        return 'lark-typestr-hides-node-class'
+    if 'hidden-categorical' in feats or 'expnum' in feats:
+        # "__categorical__" other than true is not printed (the string reads back as a different type);
+        # 1e30 is read with int("1e30")
         return 'lark-parameters'
-    return 'lark-other'
+    return None
 
 
 # ===================================================================== run
@@ -909,10 +917,8 @@ def run(cases, tier, rng):
         if pv.startswith('BAD'):
             problems.append(('bad', 'model: type_parse (type_tostring t) <> t on a printable type (%s)' % pv, None, 'corr:type-parse'))
         # ---------------- collect type strings for the parsers
-        for key in ('type', 'type0', 'ftype'):
-            s = b(I, key)
-            if isinstance(s, bytes) and s not in type_strings:
-                type_strings[s] = c
+        if itype == mtype and isinstance(itype, bytes) and itype not in type_strings:
+            type_strings[itype] = (c, [x for x in M.get('feat', []) if isinstance(x, str)])
         real = [p for p in problems if p[0] != 'skipnote']
         if not real:
             add('agree', c, '')
@@ -939,7 +945,7 @@ def run(cases, tier, rng):
             if unb(d['printed'][0]) == s:
                 mparse_ok += 1
             else:
-                add('bad', type_strings[s], 'model type_parse of %r prints back as %r' % (s, unb(d['printed'][0])), obl='corr:type-parse')
+                add('bad', type_strings[s][0], 'model type_parse of %r prints back as %r' % (s, unb(d['printed'][0])), obl='corr:type-parse')
     stats['model_parse_strings'] = dict(total=len(strs), parsed_back_identically=mparse_ok)
     lres = run_lark(strs)
     if lres is None:
@@ -952,12 +958,12 @@ def run(cases, tier, rng):
             if good:
                 stats['lark_ok'] += 1
                 continue
-            sig = lark_signature(s, res)
-            if sig is None:
-                stats['lark_ok'] += 1
+            c, feats = type_strings[s]
+            sig = lark_signature(s, res, feats)
+            if sig == 'skip':
+                stats['lark_skipped_custom_typestr'] = stats.get('lark_skipped_custom_typestr', 0) + 1
                 continue
-            stats['lark_fail'][sig] = stats['lark_fail'].get(sig, 0) + 1
-            c = type_strings[s]
+            stats['lark_fail'][str(sig)] = stats['lark_fail'].get(str(sig), 0) + 1
             add('viol', c, 'from_datashape: the type string %r printed by the implementation does not come back: low-level %s, high-level %s'
                 % (s, res['ll'], res['hl']), sig=sig, obl='corr:lark-parser')
         C.log('parsers: %d strings in %.1fs (lark ok %d)' % (len(strs), time.time() - t2, stats['lark_ok']))
